@@ -1,0 +1,131 @@
+//go:build verif
+
+package kv
+
+import (
+	"errors"
+	"os"
+
+	"github.com/lindb/common/pkg/fileutil"
+	"github.com/lindb/common/pkg/ltoml"
+)
+
+// This file only exists under the build tag "verif". It lets the external verification
+// harness observe the file-system operations of the kv package and run background jobs
+// synchronously. Nothing here changes behaviour while no hook is installed.
+
+// VerifFSHook is called before (before=true) and after (before=false) a file-system operation.
+type VerifFSHook func(op, path string, before bool)
+
+// VerifSetFSHook wraps the package level I/O seams; nil restores the production functions.
+func VerifSetFSHook(h VerifFSHook) {
+	if h == nil {
+		listDirFunc = fileutil.ListDir
+		mkDirFunc = fileutil.MkDirIfNotExist
+		removeFunc = os.Remove
+		removeDirFunc = fileutil.RemoveDir
+		encodeTomlFunc = ltoml.EncodeToml
+		return
+	}
+	listDirFunc = func(path string) ([]string, error) {
+		h("listDir", path, true)
+		rs, err := fileutil.ListDir(path)
+		h("listDir", path, false)
+		return rs, err
+	}
+	mkDirFunc = func(path string) error {
+		h("mkDir", path, true)
+		err := fileutil.MkDirIfNotExist(path)
+		h("mkDir", path, false)
+		return err
+	}
+	removeFunc = func(path string) error {
+		h("remove", path, true)
+		err := os.Remove(path)
+		h("remove", path, false)
+		return err
+	}
+	removeDirFunc = func(path string) error {
+		h("removeDir", path, true)
+		err := fileutil.RemoveDir(path)
+		h("removeDir", path, false)
+		return err
+	}
+	encodeTomlFunc = func(fileName string, v interface{}) error {
+		h("encodeToml", fileName, true)
+		err := ltoml.EncodeToml(fileName, v)
+		h("encodeToml", fileName, false)
+		return err
+	}
+}
+
+// VerifCompactSync runs the level-0 compaction job of the family on the caller's goroutine.
+// force=false uses the guard of the periodic store compaction (needCompact),
+// force=true the guard of Family.Compact (more than one level-0 file).
+// It returns (false, nil) when the guard said that nothing is to be done.
+func VerifCompactSync(f Family, force bool) (bool, error) {
+	ff, ok := f.(*family)
+	if !ok {
+		return false, errors.New("not a kv family")
+	}
+	if force {
+		if ff.compacting.Load() {
+			return false, nil
+		}
+		snapshot := ff.GetSnapshot()
+		numberOfFiles := snapshot.GetCurrent().NumberOfFilesInLevel(0)
+		snapshot.Close()
+		if numberOfFiles <= 1 {
+			return false, nil
+		}
+	} else if !ff.needCompact() {
+		return false, nil
+	}
+	if !ff.compacting.CompareAndSwap(false, true) {
+		return false, nil
+	}
+	defer ff.compacting.Store(false)
+	return true, ff.backgroundCompactionJob()
+}
+
+// VerifStoreCompact runs the periodic store level job (compact / rollup checks and reader cache cleanup).
+func VerifStoreCompact(s Store) { s.compact() }
+
+// VerifCacheCleanup evicts expired readers of the store's reader cache.
+func VerifCacheCleanup(s Store) {
+	if ss, ok := s.(*store); ok {
+		ss.cache.Cleanup()
+	}
+}
+
+// VerifWaitIdle waits until flushers are released and background jobs (compact/rollup) of the family finished.
+func VerifWaitIdle(f Family) {
+	if ff, ok := f.(*family); ok {
+		ff.condition.Wait()
+	}
+}
+
+// VerifDeleteObsoleteFiles runs the obsolete file cleanup of the family.
+func VerifDeleteObsoleteFiles(f Family) { f.deleteObsoleteFiles() }
+
+// VerifRollup triggers the (background) rollup job of the source family; use VerifWaitIdle to wait for it.
+func VerifRollup(f Family) { f.rollup() }
+
+// VerifNeedRollup returns the production decision whether the family wants a rollup now.
+func VerifNeedRollup(f Family) bool { return f.needRollup() }
+
+// VerifPendingOutputs returns the file numbers registered as pending outputs of the family.
+func VerifPendingOutputs(f Family) (rs []int64) {
+	if ff, ok := f.(*family); ok {
+		ff.pendingOutputs.Range(func(key, _ interface{}) bool {
+			if k, ok := key.(interface{ Int64() int64 }); ok {
+				rs = append(rs, k.Int64())
+			}
+			return true
+		})
+	}
+	return rs
+}
+
+// VerifFamilyVersion exposes the family version (active versions, live rollup files).
+func VerifFamilyVersion(f Family) interface{} { return f.getFamilyVersion() }
